@@ -323,12 +323,12 @@ func (rr *refRun) judgeCase() map[string]interface{} {
 }
 
 type refVerdict struct {
-	ID       string     `json:"id"`
-	Crashed  bool       `json:"crashed"`
-	Marks    [][]string `json:"marks"`
+	ID       string       `json:"id"`
+	Crashed  bool         `json:"crashed"`
+	Marks    [][]string   `json:"marks"`
 	Tally    [][][]string `json:"tally"`
-	RefCount bool       `json:"refcount"`
-	Extra    []string   `json:"extra"`
+	RefCount bool         `json:"refcount"`
+	Extra    []string     `json:"extra"`
 }
 
 func runRefsJudge(c *Ctx, jcs []map[string]interface{}) map[string]refVerdict {
@@ -412,7 +412,7 @@ func regexPalette() []reEntry {
 		mk(reSeq(reLit("refs/heads/"), reStar(reAny()))),
 		mk(reSeq(reStar(reAny()), reLit("foo"), reStar(reAny()))),
 		mk(reSeq(reLit("refs/"), reAlt(reLit("heads"), reLit("tags")), reLit("/"), reStar(reAny()))),
-		mk(reAlt(reLit("refs/heads/f"), reLit("oo"))),                      // top-level alternation
+		mk(reAlt(reLit("refs/heads/f"), reLit("oo"))),                     // top-level alternation
 		mk(reAlt(reLit("refs/heads/main"), reLit("refs/tags/v1"))),        // top-level alternation
 		mk(reAlt(reLit("foo"), reAlt(reLit("bar"), reLit("refs/stash")))), // three alternatives
 		mk(reSeq(reLit("refs/tags/v"), rePlus(reDig()))),
